@@ -342,6 +342,20 @@ def wrap_index(index, size):
 def wrap_indices(index, size):
     return [i if i >= 0 else wrap_index(i, size) for i in index]
 
+def mask_to_index(index):
+    # A 1-d boolean mask selects the positions where it is true
+    ndim, isbool = get_array_properties(index)
+    if isbool and ndim == 1:
+        index, = index.nonzero() if hasattr(index, 'nonzero') else np.nonzero(index)
+    return index
+
+def broadcast_indices(m, n):
+    if len(m) != len(n):
+        try: m, n = np.broadcast_arrays(m, n)
+        except ValueError:
+            raise IndexError('shape mismatch: indexing arrays could not be broadcast together') from None
+    return m, n
+
 def unpack_index(index, ndim):
     indim = len(index)
     if indim == ndim:
@@ -749,7 +763,7 @@ class SparseArray:
             m, n = unpack_index(index, self.ndim)
             if m.__class__ is slice:
                 if m == open_slice:
-                    if n == open_slice:
+                    if n.__class__ is slice and n == open_slice:
                         return self
                     else:
                         value = np.array([i[n] for i in rows])
@@ -764,9 +778,9 @@ class SparseArray:
                         return rows[m]
                     elif md == 1:
                         if misbool:
-                            return SparseArray.from_rows([rows[i] for i, j in enumerate(m) if j])
+                            return SparseArray.from_rows([rows[i].copy() for i, j in enumerate(m) if j])
                         else:
-                            return SparseArray.from_rows([rows[i] for i in m])
+                            return SparseArray.from_rows([rows[i].copy() for i in m])
                     else:
                         raise IndexError(f'row index can be at most 1-d, not {md}-d')
                 elif md == 0:
@@ -782,11 +796,18 @@ class SparseArray:
                     raise IndexError(f'row index can be at most 1-d, not {md}-d')
                     
             else:
+                m = mask_to_index(m)
                 md = get_ndim(m)
                 if md == 0: 
                     return rows[m][n]
                 elif md == 1: 
+                    n = mask_to_index(n)
                     nd = get_ndim(n)
+                    if nd == 0:
+                        n = wrap_index(n, self.vector_size)
+                    elif nd == 1:
+                        m, n = broadcast_indices(m, n)
+                        n = wrap_indices(n, self.vector_size)
                     dtype = self.dtype
                     if dtype is float:
                         if nd == 0:
@@ -797,9 +818,9 @@ class SparseArray:
                             raise IndexError(f'column index can be at most 1-d, not {nd}-d')
                     elif dtype is bool:
                         if nd == 0:
-                            return np.array([n in rows[i].set for i in m])
+                            return np.array([n in rows[i].set for i in m], dtype=bool)
                         elif nd == 1:
-                            return np.array([j in rows[i].set for i, j in zip(m, n)])
+                            return np.array([j in rows[i].set for i, j in zip(m, n)], dtype=bool)
                         else:
                             raise IndexError(f'column index can be at most 1-d, not {nd}-d')
                     else:
@@ -810,11 +831,11 @@ class SparseArray:
             ndim, has_bool = get_array_properties(index)
             if has_bool:
                 if ndim == 1: 
-                    return SparseArray.from_rows([rows[i] for i, j in enumerate(index) if j])
+                    return SparseArray.from_rows([rows[i].copy() for i, j in enumerate(index) if j])
                 else:
                     return self[index.nonzero() if hasattr(index, 'nonzero') else np.nonzero(index)]
             elif ndim == 1:
-                return SparseArray.from_rows([rows[i] for i in index])
+                return SparseArray.from_rows([rows[i].copy() for i in index])
             elif ndim > 1:
                 raise IndexError('must use tuple for multidimensional indexing')
             elif index == open_slice:
@@ -869,6 +890,7 @@ class SparseArray:
                         'cannot set an array element with a sequence'
                     )
             elif n.__class__ is slice:
+                m = mask_to_index(m)
                 md, misbool = get_array_properties(m)
                 if md == 0:
                     rows[m][n] = value
@@ -888,13 +910,20 @@ class SparseArray:
                 else:
                     raise IndexError(f'row index can be at most 1-d, not {md}-d')
             else:
+                m = mask_to_index(m)
                 md = get_ndim(m)
                 if md == 0: 
                     rows[m][n] = value
                 elif md == 1: 
+                    n = mask_to_index(n)
+                    nd = get_ndim(n)
+                    if nd == 0:
+                        n = wrap_index(n, self.vector_size)
+                    elif nd == 1:
+                        m, n = broadcast_indices(m, n)
+                        n = wrap_indices(n, self.vector_size)
                     dtype = self.dtype
                     if dtype is float:
-                        nd = get_ndim(n)
                         if nd == 0:
                             if vd == 0:
                                 if value:
@@ -936,6 +965,10 @@ class SparseArray:
                         else:
                             raise IndexError(f'column index can be at most 1-d, not {nd}-d')
                     elif dtype is bool:
+                        if nd == 0:
+                            n = [n] * len(m)
+                        elif nd != 1:
+                            raise IndexError(f'column index can be at most 1-d, not {nd}-d')
                         if vd == 0:
                             if value:
                                 for i, j in zip(m, n): 
@@ -958,15 +991,10 @@ class SparseArray:
             ndim, has_bool = get_array_properties(index)
             if has_bool:
                 if ndim == 1: 
-                    if vd == 0:
-                        for i, j in enumerate(index):
-                            if j: rows[i][:] = value
-                    else:
-                        for i, j in enumerate(index):
-                            if j: rows[i][:] = value[i]
+                    rows = [rows[i] for i, j in enumerate(index) if j]
                 else:
                     self[index.nonzero() if hasattr(index, 'nonzero') else np.nonzero(index)] = value
-                return
+                    return
             elif ndim == 1:
                 rows = [rows[i] for i in index]
             elif index.__class__ is slice:
